@@ -708,7 +708,11 @@ class GetMoveScpTask(Task):
                 status = handler_status_value(I, sk, st)
                 dk = I.choose(len(DS_KINDS), "dataset kind")
                 g["ds_kind"] = dk
-                ds = [None, DatasetV([("SOPInstanceUID", "1.2.3"), ("PatientName", "x")]), DatasetV([("PatientName", "x")]), DatasetV([]),
+                # the instance UID is whatever string the handler's data set carries (the library's default configuration lets
+                # any 1-64 character string through as a UID): an opaque, non-empty text - not a particular well-formed UID
+                g["instance_uid"] = Env("the-yielded-instance's-SOPInstanceUID", cls="str")
+                g["instance_uid"].truth = True
+                ds = [None, DatasetV([("SOPInstanceUID", g["instance_uid"]), ("PatientName", "x")]), DatasetV([("PatientName", "x")]), DatasetV([]),
                       "not a dataset", DatasetV([("FailedSOPInstanceUIDList", []), ("ErrorComment", "archive offline")]),
                       DatasetV([("FailedSOPInstanceUIDList", ["9.9.9"])])][dk]
                 g["handler_dataset"] = ds
@@ -792,7 +796,7 @@ class GetMoveScpTask(Task):
                 has_uid = g.get("ds_kind") == 1
                 if subop:
                     I.ob(f"C22/{self.fn}/an-instance-is-listed-as-failed-exactly-when-its-sub-operation-failed{T}",
-                         z3.If(failed_now == 1, z3.BoolVal(appended == (1 if has_uid else 0) and (not has_uid or fi[-1] == "1.2.3")),
+                         z3.If(failed_now == 1, z3.BoolVal(appended == (1 if has_uid else 0) and (not has_uid or fi[-1] is g.get("instance_uid"))),
                                z3.BoolVal(appended == 0)), detail=f"appended={appended} ds_kind={g.get('ds_kind')}")
                 else:
                     I.ob(f"C22/{self.fn}/nothing-but-an-invalid-dataset-placeholder-is-listed-without-a-sub-operation{T}",
